@@ -540,7 +540,7 @@ def history(rng, nops, weights=None, with_plates=True, trace=False):
                 others = [x for x in g.containers if x != s]
                 if others:
                     q, b = g.transfer_qty(g.impl.env[s], 0.2)
-                    q['v'] = '-' + q['v']
+                    q['v'] = '-' + q['v'].lstrip('+')
                     op = {'op': 'transfer', 'src': {'c': s}, 'dst': {'c': rng.choice(others)}, 'q': q, 'osrc': g.fresh(), 'odst': g.fresh()}
                     g.emit(op, 'infeasible:negative')
             else:
